@@ -192,7 +192,10 @@ func (d *Decoder) readTypedMap() (interface{}, error) {
 	}
 	mType, ok := d.typMap[typ]
 	if !ok {
-		return nil, newCodecError("ReadType", "no type map for %v", typ)
+		if d.skipping == 0 {
+			return nil, newCodecError("ReadType", "no type map for %v", typ)
+		}
+		mType = reflect.TypeOf(map[interface{}]interface{}{}) // the map is read to be dropped
 	}
 
 	var mValue reflect.Value
